@@ -22,12 +22,22 @@
        every generated master.
    wf_master m (unique sibling names, Proofs/FetchShape.v) is needed in addition where a copy of
    the master is a source.
-   NOT proved here (decided by the correspondence stream + oracle only): the forms that go through
-   the printed text (fetch m [parse (show w)]) and "the master's own defaults as first source". *)
+   The TEXT form ("re-parsed from its printed text", Proofs/FetchReparse.v): C07_refetch_text composes
+   C07_refetch, the print/parse round trip of C01 and a strengthening of C05's observational lemma
+   (fetch results do not depend on the line numbers of source words): fetching parse(print W) gives W
+   up to the line numbers of value words (the re-parsed words sit on the lines of the printed text),
+   and every printed form of the two is identical.  Further hypotheses: the master holds no hidden
+   template (nohids: true of every parsed master without deprecated definitions / include lines), canon
+   is blind to word lines (true of extract_format().as_str()), and the shown part of W is in the
+   printer/parser round-trip domain dtree_ok (kept as a hypothesis; evaluated in the Example).
+   fetch does not skip hidden templates in a source, so the text form (which omits them) and the object
+   form coincide only inside D07 - outside they differ on the real code too (finding F7a).
+   NOT proved here (decided by the correspondence stream + oracle only): "the master's own defaults as
+   first source". *)
 From Coq Require Import List Ascii String Bool Arith ZArith.
 From Phil Require Import Base Tree Vars Choice Fetch FetchBasics FetchShape FetchDisabled FetchExamples
   FetchIdemLists FetchIdemBase FetchIdem FetchIdemCopy FetchIdemNoMult FetchIdemChoice FetchIdemExamples EntryFetch EntryIdem
-  ChoiceProofs ChoiceTop.
+  ChoiceProofs ChoiceTop Parser Show ShowProofs TreeRoundtrip ParserShape FetchReparse.
 Import ListNotations.
 
 (* W = M.fetch(S): fetching W again, as an object, gives W *)
@@ -145,3 +155,54 @@ Example C07_domain_satisfiable :
   fetch ex_env ex_canon false ex_master [ex_source] = Ok ex_result /\
   fetch ex_env ex_canon false ex_master [ex_result] = Ok ex_result.
 Proof. exact (conj ex_D07 (conj ex_wf (conj ex_no_dollar (conj ex_fetch ex_refetch)))). Qed.
+
+(* ---------------------------------------------------------------- the text form *)
+(* W = M.fetch(S) printed, parsed again and fetched gives W up to the line numbers of value words
+   ([we] erases exactly those), and prints identically at every prefix, level and width *)
+Theorem C07_refetch_text : forall env canon o m srcs w width text l,
+  (forall k c c', optwe c c' -> canon k c = canon k c') ->
+  D07 env canon m -> nohids m = true -> srcs_have_dollar srcs = false ->
+  fetch env canon false m srcs = Ok w ->
+  forallb (dtree_ok []) (shown w) = true ->
+  as_str w [] None 0 width = Ok text -> parse o text = Ok l ->
+  exists w', fetch env canon false m [l] = Ok w' /\ map we w' = map we w /\
+             forall p e lv wd, as_str w' p e lv wd = as_str w p e lv wd.
+Proof. exact refetch_text. Qed.
+Print Assumptions C07_refetch_text.
+
+(* masters without .multiple: for every canon *)
+Theorem C07_refetch_text_nomultiple : forall env canon o m srcs w width text l,
+  D07s m -> nohids m = true -> srcs_have_dollar srcs = false ->
+  fetch env canon false m srcs = Ok w ->
+  forallb (dtree_ok []) (shown w) = true ->
+  as_str w [] None 0 width = Ok text -> parse o text = Ok l ->
+  exists w', fetch env canon false m [l] = Ok w' /\ map we w' = map we w /\
+             forall p e lv wd, as_str w' p e lv wd = as_str w p e lv wd.
+Proof. exact refetch_text_nomultiple. Qed.
+Print Assumptions C07_refetch_text_nomultiple.
+
+(* the object form with the hidden templates of W removed (what the text form sees) *)
+Theorem C07_refetch_pruned : forall env canon m srcs w,
+  D07 env canon m -> nohids m = true -> srcs_have_dollar srcs = false ->
+  fetch env canon false m srcs = Ok w -> fetch env canon false m [prune w] = Ok w.
+Proof. exact refetch_pruned. Qed.
+Print Assumptions C07_refetch_pruned.
+
+(* every parsed master without deprecated definitions or include lines has no hidden template *)
+Theorem C07_parsed_masters_have_no_hidden_templates : forall o s m,
+  parse o s = Ok m -> no_deprecated_or_include m = true -> nohids m = true.
+Proof. exact parsed_master_nohids. Qed.
+Print Assumptions C07_parsed_masters_have_no_hidden_templates.
+
+(* non-vacuity: a master with a multiple scope, a plain scope and a multiple definition, two sources;
+   every hypothesis of C07_refetch_text computed; strict equality fails (word lines differ) *)
+Example C07_refetch_text_example :
+  (forall k c c', optwe c c' -> ex_canon k c = ex_canon k c') /\
+  D07 ex_env ex_canon ex2_master /\ nohids ex2_master = true /\ srcs_have_dollar [ex2_src1; ex2_src2] = false /\
+  fetch ex_env ex_canon false ex2_master [ex2_src1; ex2_src2] = Ok ex2_result /\
+  mstables ex2_result = true /\ forallb (dtree_ok []) (shown ex2_result) = true /\
+  as_str ex2_result [] None 0 None = Ok ex2_text /\ parse [] ex2_text = Ok ex2_parsed /\
+  fetch ex_env ex_canon false ex2_master [ex2_parsed] = Ok ex2_again /\
+  map we ex2_again = map we ex2_result /\ ex2_again <> ex2_result /\
+  length ex2_result = 8 /\ length (prune ex2_result) = 6.
+Proof. exact refetch_text_example. Qed.
